@@ -5,7 +5,10 @@
 (* Part A - files as lines standing in place.  A file is a sequence of     *)
 (* lines, a line a sequence of items: [t |-> "x", c] (a character token),  *)
 (* [t |-> "in", c |-> g] (\input of file g, its name terminated by a space *)
-(* or by the end of the line) and [t |-> "ei", c |-> 0] (\endinput).       *)
+(* or by the end of the line), [t |-> "ei", c |-> 0] (\endinput) and       *)
+(* [t |-> "m", c |-> 0, body |-> items] - a call of a parameterless macro  *)
+(* whose replacement text is `body` (characters, \input, \endinput): the   *)
+(* rest of the body is *pending expansion* while a file it \inputs is read. *)
 (* The end of a line contributes what TeX's scanner makes of the end-line  *)
 (* character: \par for an empty line, a space after a character, nothing   *)
 (* after a control word or when it terminated a file name.                 *)
@@ -32,14 +35,22 @@ PAR == [t |-> "par", c |-> 0]
 EolTokens(line) == IF line = <<>> THEN <<PAR>>
                    ELSE IF line[Len(line)].t \in {"x", "lb", "rb"} THEN <<SPACE>> ELSE <<>>
 
+\* textual substitution of macro calls
+RECURSIVE Flatten(_)
+Flatten(line) == IF line = <<>> THEN <<>>
+                 ELSE (IF Head(line).t = "m" THEN Head(line).body ELSE <<Head(line)>>) \o Flatten(Tail(line))
+
+ItemHasEi(it) == it.t = "ei" \/ (it.t = "m" /\ \E j \in 1..Len(it.body) : it.body[j].t = "ei")
+HasEi(line) == \E i \in 1..Len(line) : ItemHasEi(line[i])
+
 \* Deviation (known finding C19/endinput-drops-rest-of-line): texlang's \endinput ends the lexer's
-\* current line at once, so the rest of the line (and its end-line token) is lost.
+\* current line at once, so the rest of the line *text* (and its end-line token) is lost.  Tokens that
+\* are already pending - the rest of the macro body that contained the \endinput - are still read
+\* (the repository's test end_input_in_second_file pins exactly this).
 CutAtEndinput(line) ==
   IF "EndinputDropsRestOfLine" \notin Deviations THEN line
-  ELSE LET eis == { i \in 1..Len(line) : line[i].t = "ei" } IN
+  ELSE LET eis == { i \in 1..Len(line) : ItemHasEi(line[i]) } IN
        IF eis = {} THEN line ELSE SubSeq(line, 1, CHOOSE i \in eis : \A j \in eis : i <= j)
-
-HasEi(line) == \E i \in 1..Len(line) : line[i].t = "ei"
 
 ------------------------------------------------------------------------------
 (* Reference layer.  Result: [out, err] ; depth = number of open sources.     *)
@@ -59,7 +70,7 @@ InlineItems(files, items, k, depth) ==
 InlineFile(files, g, ln, depth) ==
   IF ln > Len(files[g]) THEN [out |-> <<>>, err |-> ""]
   ELSE LET line == CutAtEndinput(files[g][ln])
-           r == InlineItems(files, line, 1, depth)
+           r == InlineItems(files, Flatten(line), 1, depth)
        IN IF r.err # "" THEN r
           ELSE LET eol == IF HasEi(files[g][ln]) /\ "EndinputDropsRestOfLine" \in Deviations THEN <<>> ELSE EolTokens(line)
                    rest == IF HasEi(files[g][ln]) THEN [out |-> <<>>, err |-> ""] ELSE InlineFile(files, g, ln + 1, depth)
@@ -68,7 +79,8 @@ InlineFile(files, g, ln, depth) ==
 Inline(files) == InlineFile(files, 1, 1, 1)
 
 ------------------------------------------------------------------------------
-(* Implementation layer: a stack of cursors [f, ln, k, ended]; top = last element. *)
+(* Implementation layer: a stack of cursors [f, ln, k, ended, pend]; top = last element.   *)
+(* pend = the pending expansion tokens of that source (vm/mod.rs Source.expansions).       *)
 RECURSIVE Machine(_, _, _)
 Machine(files, stack, out) ==
   IF stack = <<>> THEN [out |-> out, err |-> ""]
@@ -79,20 +91,21 @@ Machine(files, stack, out) ==
     IF cur.ln > Len(files[cur.f]) THEN Machine(files, below, out)           \* source exhausted: pop
     ELSE LET full == files[cur.f][cur.ln]
              line == CutAtEndinput(full) IN
-      IF cur.k > Len(line)
+      IF cur.k > Len(line) /\ cur.pend = <<>>
       THEN \* end of the line: end-line token, then next line or (after \endinput) end of file
            LET eol == IF cur.ended /\ "EndinputDropsRestOfLine" \in Deviations THEN <<>> ELSE EolTokens(line)
                nxt == IF cur.ended THEN below
-                      ELSE Append(below, [f |-> cur.f, ln |-> cur.ln + 1, k |-> 1, ended |-> FALSE])
+                      ELSE Append(below, [f |-> cur.f, ln |-> cur.ln + 1, k |-> 1, ended |-> FALSE, pend |-> <<>>])
            IN Machine(files, nxt, out \o eol)
-      ELSE LET it == line[cur.k]
-               adv == [cur EXCEPT !.k = cur.k + 1] IN
-           IF it.t = "x" THEN Machine(files, Append(below, adv), Append(out, it))
+      ELSE LET it == IF cur.pend # <<>> THEN Head(cur.pend) ELSE line[cur.k]
+               adv == IF cur.pend # <<>> THEN [cur EXCEPT !.pend = Tail(cur.pend)] ELSE [cur EXCEPT !.k = cur.k + 1] IN
+           IF it.t = "m" THEN Machine(files, Append(below, [adv EXCEPT !.pend = it.body]), out)
+           ELSE IF it.t = "x" THEN Machine(files, Append(below, adv), Append(out, it))
            ELSE IF it.t = "ei" THEN Machine(files, Append(below, [adv EXCEPT !.ended = TRUE]), out)
            ELSE IF n + 1 > Limit THEN [out |-> out, err |-> "too many input levels"]
-                ELSE Machine(files, Append(Append(below, adv), [f |-> it.c, ln |-> 1, k |-> 1, ended |-> FALSE]), out)
+                ELSE Machine(files, Append(Append(below, adv), [f |-> it.c, ln |-> 1, k |-> 1, ended |-> FALSE, pend |-> <<>>]), out)
 
-Run(files) == Machine(files, <<[f |-> 1, ln |-> 1, k |-> 1, ended |-> FALSE]>>, <<>>)
+Run(files) == Machine(files, <<[f |-> 1, ln |-> 1, k |-> 1, ended |-> FALSE, pend |-> <<>>]>>, <<>>)
 
 \* the output delivered before an error is not compared (the VM stops with a located error)
 Same(a, b) == a.err = b.err /\ (a.err = "" => a.out = b.out)
